@@ -28,6 +28,15 @@ Theorem C15_unset_removes_exactly :
 Proof. exact unset_spec. Qed.
 Print Assumptions C15_unset_removes_exactly.
 
+(* inheritance to an undecorated class overriding __init__: what the subclass assigns before and after delegating to the tracked
+   __init__, the arguments it forwards, and the default_as_set / init=False fields -- nothing else, nothing less *)
+Theorem C15_subclass_constructor :
+  forall c pre post n kw x,
+  In x (fold_left (step c) ((OAlloc :: map OSetAttr pre) ++ OInit n kw :: map OSetAttr post) []) <->
+  In x pre \/ In x post \/ (In x (firstn n (params c) ++ kw) /\ ~ In x (init_vars c)) \/ In x (post_init c).
+Proof. exact subclass_constructor_spec. Qed.
+Print Assumptions C15_subclass_constructor.
+
 (* exclude_unset: a field of a with_fields_set class is emitted only if it is in the set (first disjunct of `omitted`);
    with exclude_unset=False the set plays no role.  Stated on the compiled field strategies of the serializer. *)
 Theorem C15_exclude_unset_drives_serialization :
